@@ -258,33 +258,3 @@ Fixpoint serve_all (st : S) (rs : list req) : S * list rsp :=
 
 End Run.
 
-(* ---------------------------------------------------------------- response views
-   What goes on the wire is determined by the response's function code and fields; the
-   class name is only a Python artefact.  [view] maps a model response to the
-   spec-level response shape using the generated class -> function_code table. *)
-Inductive srsp :=
-| SRead (fc : Z) (vals : list Z)               (* FC 1-4 and 23: the values read *)
-| SEcho1 (fc addr value : Z)                   (* FC 5, 6: address and value *)
-| SEchoN (fc addr qty : Z)                     (* FC 15, 16: address and quantity *)
-| SMask (addr and_mask or_mask : Z)            (* FC 22 *)
-| SExc (fc code : Z).                          (* fc already carries the 0x80 bit *)
-
-Definition view (X : exec_code) (o : rsp) : option srsp :=
-  match o with
-  | Exc fc code => Some (SExc fc code)
-  | Rsp cls args =>
-      match assoc_str (x_resp_fc X) cls with
-      | None => None
-      | Some fc =>
-          match args with
-          | [VL v] =>
-              if (fc =? 1) || (fc =? 2) || (fc =? 3) || (fc =? 4) || (fc =? 23)
-              then Some (SRead fc v) else None
-          | [VZ a; VZ v] =>
-              if (fc =? 5) || (fc =? 6) then Some (SEcho1 fc a v)
-              else if (fc =? 15) || (fc =? 16) then Some (SEchoN fc a v) else None
-          | [VZ a; VZ am; VZ om] => if fc =? 22 then Some (SMask a am om) else None
-          | _ => None
-          end
-      end
-  end.
